@@ -20,6 +20,7 @@ import RTV.Drv.Holiday
 import RTV.Drv.Durations
 import RTV.Drv.TimePeriod
 import RTV.Drv.DtExtract
+import RTV.Drv.ZhDateTime
 import RTV.Drv.DateParser
 /-! Model driver: one operation per input line (tab-separated), one answer line per operation.
 Run compiled (`.lake/build/bin/rtvdriver`) or with `lake env lean --run Driver.lean`. -/
@@ -44,6 +45,7 @@ def dispatch (line : String) : String :=
       <|> dispatchDurations op args
       <|> dispatchTimePeriod op args
       <|> dispatchDtExtract op args
+      <|> dispatchZhDateTime op args
       <|> dispatchDateParser op args
       <|> dispatchDtRes op args
       <|> dispatchNum op args
